@@ -807,6 +807,82 @@ func (c *Ctx) ruleN4(impls []*types.Named) {
 	}
 	c.floor("N4", "identity dereferences in access controllers", nDeref, 3)
 
+	// (d) entries handed to the dependency's encoder: DF8 — ToJsonableEntry dereferences the
+	// clock and the identity's signatures without a nil test
+	nW := 0
+	for _, f := range c.RepoFns {
+		if c.isTestFile(f.Pos()) {
+			continue
+		}
+		k := 0
+		eachCall(f, func(call ssa.CallInstruction) {
+			if methodName(call) != "Write" || !call.Common().IsInvoke() || !strings.HasSuffix(typeStr(call.Common().Value.Type()), "go-ipfs-log/iface.IO") && !strings.HasSuffix(typeStr(call.Common().Value.Type()), "go-ipfs-log.IO") {
+				return
+			}
+			var ent ssa.Value
+			for _, a := range call.Common().Args {
+				x := strip(a)
+				if it := c.lookupIface(ifaceEntry); it != nil && (types.Implements(x.Type(), it) || types.Implements(a.Type(), it)) {
+					ent = x
+				}
+			}
+			if ent == nil {
+				return
+			}
+			// only entries that come in from outside: parameters / elements of parameter slices
+			fromParam := false
+			var ps []ssa.Value
+			for _, p := range f.Params {
+				ps = append(ps, p)
+			}
+			if derived(ps, flowOpts{})[ent] {
+				fromParam = true
+			}
+			if !fromParam {
+				return
+			}
+			if !c.isControlFn(f) {
+				nW++
+			}
+			cons := fmt.Sprintf("%s→IO.Write#complete-entry#%d", fnKey(f), k)
+			k++
+			en := nf(ent)
+			clockOK, sigOK := false, false
+			for _, ft := range factsAt(call.Block()) {
+				if ft.Y == nil && ft.Op == token.EQL {
+					if dc, ok := ft.X.(*ssa.Call); ok && methodName(dc) == "Defined" {
+						r := dc.Common().Value
+						if r != nil && nf(r) == en+".GetClock()" {
+							clockOK = true
+						}
+					}
+				}
+				if ft.Y != nil && ft.Op == token.NEQ {
+					x, y := ft.X, ft.Y
+					if isNilConst(x) {
+						x, y = y, x
+					}
+					if isNilConst(y) && nf(x) == en+".GetIdentity().Signatures" {
+						sigOK = true
+					}
+				}
+			}
+			var missing []string
+			if !clockOK {
+				missing = append(missing, "no dominating Defined() test of its clock")
+			}
+			if !sigOK {
+				missing = append(missing, "no dominating nil test of its identity's signatures")
+			}
+			if len(missing) == 0 {
+				c.ok("N4", cons, call.Pos(), "the received entry is only re-encoded after its clock and identity signatures were found present")
+			} else {
+				c.bad("N4", cons, call.Pos(), "a received entry is handed to the entry encoder with "+strings.Join(missing, " and ")+": the encoder dereferences both (DF8), so a head that passes the access controller (identity and key copied from a real entry) but lacks a clock or signatures crashes the process")
+			}
+		})
+	}
+	c.floor("N4", "received entries handed to the encoder", nW, 1)
+
 	// (c) clocks of announced entries: methods other than Defined() need a Defined() guard
 	for _, f := range c.RepoFns {
 		if c.isTestFile(f.Pos()) {
